@@ -103,6 +103,9 @@ def run(tier, seed, replay_path=None):
     bmc_uniqueness(ck, tier)
     bmc_nonzero(ck, tier)
     bmc_reissue_two_keys(ck, tier)
+    # the same CAS rules for every mutating opcode as it arrives on the wire (quiet ones included): outcome class per opcode
+    from .wire_rt import wire_roundtrip
+    wire_roundtrip(ck, tier, ('store', 'concat', 'counter', 'delete'))
     return ck.finish()
 
 
